@@ -192,6 +192,8 @@ func styleCorpus(rng *rand.Rand, n int) []string {
 	return out
 }
 
+var styleStabilityFailures []string
+
 func styleMode(args []string) {
 	fs := flag.NewFlagSet("style", flag.ExitOnError)
 	drv := fs.String("driver", "", "driver binary")
@@ -217,6 +219,11 @@ func styleMode(args []string) {
 				if out != "" {
 					distinct[ps.Name+el+s] = true
 					sum.Distribution["kept-some"]++
+					// the hypothesis of the idempotence theorems for elements with style rules (C20 style_stable): the style
+					// filter returns a value it produced unchanged (douceur reads the rebuilt declarations back as they were)
+					if again := bluemonday.VerifSanitizeStyles(gp, el, out); again != out && len(styleStabilityFailures) < 5 {
+						styleStabilityFailures = append(styleStabilityFailures, fmt.Sprintf("policy %s element %s: %q gives %q, which gives %q", ps.Name, el, s, out, again))
+					}
 				} else {
 					sum.Distribution["dropped-all"]++
 				}
@@ -288,6 +295,9 @@ func styleMode(args []string) {
 done:
 	sum.Nontrivial = len(distinct)
 	sum.Samples = append(sum.Samples, map[string]any{"policy": "s-global-default", "element": "p", "input": corpus[len(corpus)/2]})
+	if len(styleStabilityFailures) > 0 {
+		sum.Extra["style_stability_failures"] = styleStabilityFailures
+	}
 	for k, v := range oracleStats {
 		sum.Distribution["oracle-"+k] = v
 	}
